@@ -57,7 +57,11 @@ def required(w, n):
             for v in w.npayload(x):
                 sort_features(w.nsort(v), out)
         if op == "POW":
-            nonlinear = True
+            base, expo = w.nargs(x)
+            ev = w.npayload(expo) if w.opname(expo).endswith("_CONSTANT") else None
+            # x^e is a polynomial of degree <= 1 in its free symbols only for e in {0, 1}
+            if w.free_symbols(base) and ev not in (0, 1):
+                nonlinear = True
         if op == "TIMES":
             if sum(1 for a in w.nargs(x) if w.free_symbols(a)) > 1:
                 nonlinear = True
